@@ -96,6 +96,36 @@ class Adapter:
         self.langs = langs or {}
         self.namemaps = namemaps
         self.seen = set()
+        self.primed = set()
+
+    def prime(self, lang):
+        """Configuration axis 'several languages in one process': before the first model of a language is handled, a
+        model of a DECOY language is built and serialised in the same process - same asset type names, but one more
+        defense on every type (even worker pids) or no defenses at all (odd pids). Nothing the library remembers from
+        one language may leak into another."""
+        if lang in self.primed:
+            return
+        self.primed.add(lang)
+        import copy
+        L = copy.deepcopy(self.langs[lang])
+        L['id'] = L['id'] + '.decoy'
+        more = os.getpid() % 2 == 0
+        for a in L['assets']:
+            if more:
+                a['steps'] = a['steps'] + [{'name': 'zzdecoy', 'kind': 'defense', 'tags': [], 'risk': {'present': False, 'c': False, 'i': False, 'a': False},
+                                            'ttc': {'type': 'function', 'name': 'Enabled', 'arguments': []}, 'meta': [],
+                                            'requires': {'present': False, 'exprs': []},
+                                            'reaches': {'present': False, 'overrides': False, 'exprs': []}}]
+            else:
+                a['steps'] = [dict(s, kind='or', ttc={'type': 'none'}) if s['kind'] == 'defense' else s for s in a['steps']]
+        try:
+            dctx = materialise.LangCtx(L)
+            m = dctx.new_model('decoy')
+            for a in L['assets']:
+                m.add_asset(getattr(dctx.ns, a['name'])(name='d_' + a['name']))
+            m._to_dict()
+        except Exception:
+            pass        # the decoy only primes whatever state the library keeps; its own fate is not judged
 
     def on_timeout(self, case):
         return {'steps': 1, 'div': [{'kind': 'timeout', 'action': 'RoundTrip', 'component': 'timeout', 'features': [],
@@ -104,6 +134,7 @@ class Adapter:
     def run_case(self, case):
         from maltoolbox.model import Model
         lang = case['lang']
+        self.prime(lang)
         ctx = materialise.lang_ctx(self.langs[lang], key=lang)
         res = {'steps': 0, 'div': [], 'features': []}
         hist = case['hist']
